@@ -45,6 +45,7 @@ type Case struct {
 	Idle      int   // seconds (storage backends)
 	FailGet   []int // injected storage faults (vk backend)
 	FailDel   []int
+	Conn      bool `json:",omitempty"` // all requests are served by one recycled RequestCtx (one keep-alive connection shared by the clients, as behind a proxy)
 	SessNoMW  bool `json:",omitempty"` // session backend without the session middleware in the chain (csrf loads and saves the session through the store itself)
 	Ops       []Op
 }
@@ -156,8 +157,9 @@ func check(c Case) vk.Verdict {
 
 	// model
 	type tokrec struct{ exp uint32 }
-	live := map[string]*tokrec{}            // storage backends
-	sessTok := map[string]string{}          // session backend: session id -> its token
+	live := map[string]*tokrec{}   // storage backends
+	sessTok := map[string]string{} // session backend: session id -> its token
+	conn := &vk.Reuse{}
 	clients := []*client{{}, {}}
 	var dead []string
 	isLive := func(tok string, cl *client) bool {
@@ -270,7 +272,12 @@ func check(c Case) vk.Verdict {
 		}
 		ran = false
 		ctrBefore := ctr
-		resp := vk.DoAddr(app, nil, op.Method, uri, body, hdr...)
+		var resp *fasthttp.RequestCtx
+		if c.Conn {
+			resp = conn.DoBody(app, op.Method, uri, body, hdr...)
+		} else {
+			resp = vk.DoAddr(app, nil, op.Method, uri, body, hdr...)
+		}
 		getFault, delFault := false, false
 		if st != nil {
 			ng, _, nd := st.Counts()
@@ -445,6 +452,7 @@ func genCase(t *rapid.T) Case {
 	if c.Backend == "session" {
 		c.SessNoMW = rapid.Bool().Draw(t, "sessnomw")
 	}
+	c.Conn = rapid.IntRange(0, 2).Draw(t, "conn") == 0
 	if (c.Backend == "vk" || c.Backend == "vk-retain") && rapid.IntRange(0, 2).Draw(t, "faults") == 0 {
 		c.FailGet = rapid.SliceOfN(rapid.IntRange(1, 15), 0, 2).Draw(t, "failget")
 		c.FailDel = rapid.SliceOfN(rapid.IntRange(1, 4), 0, 1).Draw(t, "faildel")
